@@ -71,7 +71,10 @@ Proof.
 Qed.
 (* `criterium = c2n * delta_empty * nb_annotators` IS the model's cut *)
 Theorem C07_src_cut I : criterium_src (de I) (Z.of_nat (nann I)) = cut I.
-Proof. unfold criterium_src, cut. cbv zeta. fold (c2n_src (Z.of_nat (nann I))). rewrite c2n_src_eq. reflexivity. Qed.
+Proof.
+  (* robust to a rearrangement of the product: the division is rewritten first, the rest is ring *)
+  pose proof (c2n_src_eq (nann I)) as E. unfold c2n_src in E. unfold criterium_src, cut. cbv zeta. rewrite ?E; first [reflexivity | ring].
+Qed.
 (* `if disorder <= criterium` IS the model's passes *)
 Theorem C07_src_keep I t : keep_src (criterium_src (de I) (Z.of_nat (nann I))) (ua_sum I t) = passes I t.
 Proof. rewrite C07_src_cut. reflexivity. Qed.
